@@ -225,3 +225,93 @@ def all_features(m):
 
 def all_relations(m):
     return [r for f in all_features(m) for r in f.relations]
+
+
+def special_models():
+    """targeted families the small exhaustive scope cannot reach: several relations of every class pair / triple
+    under one parent (groups of two leaves), group members with sub-trees, chains, typed and abstract features"""
+    classes = {'MAND': (1, 1, 1), 'OPT': (0, 1, 1), 'ALT': (1, 1, 2), 'OR': (1, 2, 2), 'MUTEX': (0, 1, 2), 'CARD': (2, 2, 2),
+               'CARD13': (1, 2, 3), 'ZERO': (0, 0, 1)}
+    import itertools as it
+
+    def mk(combo, deep=False):
+        cnt = [0]
+
+        def name():
+            cnt[0] += 1
+            return f'S{cnt[0]}'
+        root = {'name': 'Root', 'relations': []}
+        for c in combo:
+            mn, mx, n = classes[c]
+            kids = []
+            for _ in range(n):
+                kid = {'name': name(), 'relations': []}
+                if deep:
+                    kid['relations'] = [{'min': 0, 'max': 1, 'children': [{'name': name(), 'relations': []}]},
+                                        {'min': 1, 'max': 1, 'children': [{'name': name(), 'relations': []}]}]
+                kids.append(kid)
+            root['relations'].append({'min': mn, 'max': mx, 'children': kids})
+        return {'root': root, 'ctcs': []}
+    keys = list(classes)
+    for a, b in it.product(keys, repeat=2):
+        yield mk((a, b))
+    for a, b, c in it.product(['MAND', 'OPT', 'ALT', 'OR', 'MUTEX', 'CARD'], repeat=3):
+        yield mk((a, b, c))
+    for a, b in it.product(['MAND', 'OPT', 'ALT', 'OR', 'MUTEX', 'CARD', 'CARD13'], repeat=2):
+        yield mk((a, b), deep=True)
+    # a group under a group member, two levels
+    for a in keys:
+        for b in keys:
+            d = mk((a,))
+            d['root']['relations'][0]['children'][0]['relations'] = mk((b, 'OPT'))['root']['relations']
+            # rename to keep names unique
+            k = [100]
+
+            def ren(f):
+                k[0] += 1
+                f['name'] = f'T{k[0]}'
+                for r in f['relations']:
+                    for c in r['children']:
+                        ren(c)
+            ren(d['root'])
+            yield d
+    # typed / abstract / multi features
+    yield {'root': {'name': 'R', 'abstract': True, 'relations': [
+        {'min': 1, 'max': 1, 'children': [{'name': 'I', 'type': 'Integer', 'relations': []}]},
+        {'min': 0, 'max': 1, 'children': [{'name': 'S', 'type': 'String', 'relations': []}]},
+        {'min': 0, 'max': 1, 'children': [{'name': 'X', 'type': 'Real', 'card': [2, 4], 'relations': []}]},
+        {'min': 1, 'max': 2, 'children': [{'name': 'G1', 'abstract': True, 'relations': []}, {'name': 'G2', 'card': [0, -1], 'relations': []}]}]},
+        'ctcs': []}
+
+
+def edits(m, rng):
+    """single-point in-place edits of a model (for history-dependent behaviour such as stale caches); each returns a
+    short description or None when not applicable"""
+    feats = all_features(m)
+    rels = all_relations(m)
+    kind = rng.choice(['rename', 'card', 'prune', 'graft', 'regroup'])
+    if kind == 'rename':
+        f = rng.choice(feats)
+        f.name = f.name + '_r'
+        return f'rename to {f.name}'
+    if kind == 'card' and rels:
+        r = rng.choice(rels)
+        n = len(r.children)
+        r.card_min, r.card_max = rng.choice(cards(n, True))
+        return f'cardinality of a relation of {r.parent.name} set to [{r.card_min}..{r.card_max}]'
+    if kind == 'prune' and rels:
+        r = rng.choice(rels)
+        r.parent.relations.remove(r) if False else r.parent.relations.pop([id(x) for x in r.parent.relations].index(id(r)))
+        return f'relation removed from {r.parent.name}'
+    if kind == 'graft':
+        f = rng.choice(feats)
+        c = Feature(f'N{rng.randint(0, 10**6)}', [])
+        f.add_relation(Relation(f, [c], rng.choice([0, 1]), 1))
+        return f'new child {c.name} under {f.name}'
+    if kind == 'regroup' and rels:
+        r = rng.choice(rels)
+        c = Feature(f'N{rng.randint(0, 10**6)}', [])
+        c.parent = r.parent
+        r.children.append(c)
+        return f'new member {c.name} in a relation of {r.parent.name}'
+    return None
